@@ -181,6 +181,8 @@ def main(argv=None):
             lm = importlib.import_module(f"pyvc.lemmas.{lname}")
             L = lm.build()
             for ob in L["obligations"]:
+                if ob.get("serves") and prop not in ob["serves"] and ob.get("kind") != "canary":
+                    continue
                 ob["unit"] = "lemma:" + lname
                 obligations.append(ob)
             for x in L.get("assumptions", []):
